@@ -370,6 +370,14 @@ func (n *node) RegisterName(name gen.Atom, pid gen.PID) error {
 
 	p.name = name
 
+	if p.isAlive() == false {
+		// the process terminated meanwhile and unregisterProcess may have looked
+		// at p.registered and p.name before they were set: release the name
+		// (unless that has been done already), a dead process must not keep it
+		n.names.CompareAndDelete(name, p)
+		return gen.ErrProcessTerminated
+	}
+
 	return nil
 }
 
